@@ -198,10 +198,10 @@ def perf_input(form, kmax):
     return {'perf': s}, s, 'perf = {perf}\n', ['perf']
 
 
-def tyrving_job(res, g, age, ev, form, kmax):
+def tyrving_job(res, g, age, ev, form, kmax, prime=None):
     ty = sys.modules['athlib.tyrving_score'].tyrving_score
     jsf = js_func('tyrving_score.js', 'tyrvingScore')
-    label = 'tyrving(%r, %r, %r) form=%s' % (g, age, ev, form)
+    label = 'tyrving(%r, %r, %r) form=%s' % (g, age, ev, form) + ('' if prime is None else ' after a call with %r in both languages' % (prime,))
     py_expr = 'athlib.tyrving_score(%r, %r, %r, perf)' % (g, age, ev)
     js_expr = "JS('tyrving_score.js', 'tyrvingScore', %r, %r, %r, perf)" % (g, age, ev)
     box = {}
@@ -209,8 +209,17 @@ def tyrving_job(res, g, age, ev, form, kmax):
     def body(R):
         ins, perf, setup, names = perf_input(form, kmax)
         box['setup'] = setup
+        if prime is not None:
+            # history clause: one earlier call for the same row in each language (a one-decimal, i.e. hand-timed, text): the ports
+            # must still agree afterwards
+            run_side(lambda: ty(g, age, ev, prime))
+            run_side(lambda: jsf(g, age, ev, prime))
+            out = differential(R, ins, lambda: ty(g, age, ev, perf), lambda: jsf(g, age, ev, perf), py_expr, js_expr)
+            return dict(out, observe=[])    # (the long-lived witness process has another history: witnesses of these paths are not compared there)
         return differential(R, ins, lambda: ty(g, age, ev, perf), lambda: jsf(g, age, ev, perf), py_expr, js_expr)
     setup = perf_input_setup(form)
+    if prime is not None:
+        setup += 'outcome(lambda: %s)\noutcome(lambda: %s)\n' % (py_expr.replace('perf', repr(prime)), js_expr.replace('perf)', '%r)' % (prime,)))
     R = runner(res, 'tyrving_score / tyrvingScore', setup, py_expr, js_expr, label, ['perf'], max_paths=4000, deadline=time.time() + 900, r_axioms=('mono', 'err', 'int'))
     R.witness_setup = setup
     explore(R, res, body, label)
@@ -542,6 +551,13 @@ def build_jobs(quick, rng):
         jobs += picked
     else:
         jobs += tyr
+    hist = [j for j in tyr if j[3] in ('40', '60', '80', '100', '200', '300', '400') and j[4] == 'grid']
+    seen = set()
+    for j in hist:
+        if (j[1], j[3]) in seen or (quick and len(seen) >= 6):
+            continue
+        seen.add((j[1], j[3]))
+        jobs.append(j + ('%d.%d' % (j[5] // 250, 3),))
     qk = sys.modules['athlib.qkids_score']
     codes = sys.modules['athlib.codes']
     qj = []
